@@ -32,10 +32,10 @@ type c08Case struct {
 }
 
 type c08Item struct {
-	Kind  string                 `json:"kind"` // query mutation invalid introspection failing slow missing-op
-	Query string                 `json:"query"`
-	Vars  map[string]interface{} `json:"variables,omitempty"`
-	OpName *string               `json:"operationName,omitempty"`
+	Kind   string                 `json:"kind"` // query mutation invalid introspection failing slow missing-op
+	Query  string                 `json:"query"`
+	Vars   map[string]interface{} `json:"variables,omitempty"`
+	OpName *string                `json:"operationName,omitempty"`
 }
 
 func c08Fed(seed uint64) (*fed.Fed, error) {
@@ -109,7 +109,12 @@ func c08Check(ctx *Ctx, idx int, cs c08Case) {
 	ctx.Rep.Count(fmt.Sprintf("batch-len=%d", len(cs.Batch)))
 	b, _ := json.Marshal(body)
 	f.Data.Counters = map[string]int{}
-	resp := fed.DoRaw(gw, "application/json", b)
+	resp := fed.DoRawTimeout(gw, "application/json", b, 20*time.Second)
+	if resp == nil {
+		c08Hung = true
+		ctx.Rep.Fail(hx.Failure{Kind: "property-fails", Detail: fmt.Sprintf("the handler did not return within 20 s for a batch of %d operations (hang)", len(cs.Batch)), Case: cs, Index: idx})
+		return
+	}
 	key := hx.Canon(cs)
 	ctx.Rep.Case(key, len(cs.Batch) >= 2 && len(kinds) >= 2)
 	if len(cs.Batch) >= 2 {
@@ -209,6 +214,9 @@ func c08Mark(q, marker string) string {
 	return q[:i+1] + " " + marker + ": " + rest
 }
 
+// c08Hung: a handler call did not return; its goroutines are still parked — stop generating.
+var c08Hung bool
+
 func runC08(ctx *Ctx) error {
 	ctx.Rep.Rule = "case = a JSON-array body of 0..8 operations (plus batches of 17..130, thorough up to 1025) (valid queries, one mutation, invalid, introspection, downstream-failing, slow) through the real Handler of a generated federation; " +
 		"oracle: response is an array of the same length and result i equals the answer to operation i sent alone; distinct = distinct batch; non-trivial = ≥2 operations of ≥2 kinds"
@@ -231,7 +239,7 @@ func runC08(ctx *Ctx) error {
 			c08Check(ctx, 1000000+i, cs)
 		}
 	}
-	for k := 0; k < cases; k++ {
+	for k := 0; k < cases && !c08Hung; k++ {
 		r := ctx.Rand.Fork()
 		cs, ok := c08Gen(r, r.U64()%100000)
 		if !ok {
